@@ -7,7 +7,7 @@ KNOWN_RULE = {"unknown-name-in-fstring": "C03-fstring-nested-diagnostic-location
 def run(args):
     ctx = Ctx("C03", args.tier, args.seed)
     ctx.assumptions += ["positions are found by an AST walker written independently of the checker's (harness/src/c03.rs); spans inside f-string interpolations are not absolute, so that context is edited through a statement rule instead",
-                        "rules whose violation is a declaration-level edit (trait adoption without required methods / @requires fields) are exercised by the repository's own checker tests only; this check covers the statement- and expression-level rules in every syntactic context",
+                        "trait adoption is exercised through generated trait / adopter pairs (stream f), not through edits of the corpus programs",
                         "a guarded match arm counts as covering its variant (as in the implementation); guard-dependent exhaustiveness is out of scope"]
     ctx.proof_stage("IncanModel.Props.C03")
     ok, out = ctx.build_harness()
@@ -19,18 +19,19 @@ def run(args):
     else:
         cases, metas = ctx.run_harness("c03", extra=[ctx.scratch], timeout=3400)
         ctx.evaluations = len(cases)
-        by = {k: [c for c in cases if c[0].startswith(f"c03 {k} ")] for k in ("base", "expr", "stmt", "scope", "match", "call")}
+        by = {k: [c for c in cases if c[0].startswith(f"c03 {k} ")] for k in ("base", "expr", "stmt", "scope", "match", "call", "adopt")}
         usable = lambda cs: [(r, o.split(" ")[0]) for r, o in cs if not o.startswith("edit-unparsable")]  # noqa: E731
         for k, label in (("base", "base programs of the corpus are accepted"),
                          ("expr", "model traversal (no role skipped) = real checker: an unknown name at every expression position of the corpus and of the repository's programs is rejected at that position"),
                          ("stmt", "model = real checker: one rule-violating statement at the head of every statement list, per rule"),
                          ("scope", "model checkAssign / lookup_in_function = real checker on bindings at depth bd re-assigned at depth d through every nesting construct"),
                          ("match", "model missingVariants = real non-exhaustive-match verdict and the variants it names"),
-                         ("call", "model validateArgs = the arguments the real checker reports a type mismatch on (function and method calls, positional and keyword arguments)")):
+                         ("call", "model validateArgs / surplusArgs / missingParams = the arguments and parameters the real checker reports (type mismatch, too many, unknown keyword, missing) on function and method calls with positional and keyword arguments"),
+                         ("adopt", "model conformance = the trait-adoption diagnostics of the real checker (missing / wrongly typed @requires fields, missing / differently signed required methods) for classes, models and classes inheriting members")):
             cs = usable(by[k]) if k in ("expr", "stmt") else by[k]
             m = ctx.run_driver([c[0] for c in cs])
             ctx.tie(label, cs, m)
-        hist = {"expr_located": 0, "expr_skipped_unparsable": 0, "stmt_located": 0, "roles": {}, "rules": {}, "scope": {}, "match": {}, "call": {}}
+        hist = {"expr_located": 0, "expr_skipped_unparsable": 0, "stmt_located": 0, "roles": {}, "rules": {}, "scope": {}, "match": {}, "call": {}, "adopt": {}}
         for req, real in by["base"]:
             if real != "accepted":
                 failures.append({"request": req, "real": real, "why": "a base program of the corpus is not accepted: its edits would prove nothing"})
@@ -84,15 +85,23 @@ def run(args):
         for req, real in by["call"]:
             _, _, kind, params, cargs, truth = req.split(" ")
             ctx.nontrivial.add(req)
-            exp = "accepted" if truth == "-" else "flag " + truth
+            tf, tm = truth.split("/")
+            exp = "accepted" if (tf == "-" and tm == "-") else f"flag {tf} missing {tm}"
             hist["call"][f"{kind}:{real.split(' ')[0]}"] = hist["call"].get(f"{kind}:{real.split(' ')[0]}", 0) + 1
             if real != exp:
-                failures.append({"request": req, "real": real, "expected": exp, "why": "every argument of a type its parameter does not accept must be reported at that argument, and nothing else"})
+                failures.append({"request": req, "real": real, "expected": exp, "why": "every argument of a type its parameter does not accept must be reported at that argument, a surplus positional or unknown keyword argument on that argument, every parameter left without argument and default on the call, and nothing else"})
+        for req, real in by["adopt"]:
+            p = req.split(" ")
+            ctx.nontrivial.add(req)
+            exp = "accepted" if p[-1] == "-" else p[-1]
+            hist["adopt"][f"{p[2]}:{'accepted' if real == 'accepted' else 'rejected'}"] = hist["adopt"].get(f"{p[2]}:{'accepted' if real == 'accepted' else 'rejected'}", 0) + 1
+            if real != exp:
+                failures.append({"request": req, "real": real, "expected": exp, "why": "adopting a trait without a required method / @requires field (or with another signature / type) must be rejected with a diagnostic inside the adopter's declaration, naming exactly those members"})
         for f in failures[:5]:
             ctx.violation("oracle", f)
-        ctx.samples = [{"request": r, "real": o} for r, o in by["expr"][:2] + by["stmt"][:2] + by["scope"][:2] + by["match"][:2] + by["call"][:2]]
+        ctx.samples = [{"request": r, "real": o} for r, o in by["expr"][:2] + by["stmt"][:2] + by["scope"][:2] + by["match"][:2] + by["call"][:2] + by["adopt"][:2]]
         ctx.coverage_extra = {"histogram": hist, "harness_meta": metas, "oracle_failures": len(failures)}
     ctx.conclude_broken_obligations(failures)
     return ctx.finish(
-        rule="single local edits of accepted programs: (a) every expression position found by an independent AST walker (73 roles: conditions of if/elif/while, loop iterables, match subjects/guards/arm bodies, call and method arguments, constructor fields, comprehension parts, closure bodies, index/slice parts, tuple/list/dict/set elements, field defaults …) in the two corpus programs and in every example / fixture / snapshot source of the repository replaced by an unknown name; (b) 18 rule-violating statements (unknown name, wrong-typed assignment / return / argument, bare `return` in a function returning a value, a `mut self` method called on an immutable binding, re-assignment and compound assignment of an immutable, `?` on a non-Result and in a non-Result function, match missing an Option / enum variant, constructor with missing / unknown / duplicate field, unknown name inside an f-string) inserted at the head of every statement list (function, method of model/class/trait/newtype, then/elif/else, while, for, match arm block); (c) binding depth × assignment depth × mutability × assignment form through six nesting constructs; (d) random matches over enum/Option/Result (variant names related by prefix / suffix / case); (e) function and method calls with 1-4 parameters of primitive / collection / model / class / trait type, positional and keyword arguments, 0-2 of them of a type the parameter does not accept; distinct = (file, role/block, rule, index)",
+        rule="single local edits of accepted programs: (a) every expression position found by an independent AST walker (73 roles: conditions of if/elif/while, loop iterables, match subjects/guards/arm bodies, call and method arguments, constructor fields, comprehension parts, closure bodies, index/slice parts, tuple/list/dict/set elements, field defaults …) in the two corpus programs and in every example / fixture / snapshot source of the repository replaced by an unknown name; (b) 21 rule-violating statements (unknown name, wrong-typed assignment / return / argument, too few / too many / unknown keyword arguments, bare `return` in a function returning a value, a `mut self` method called on an immutable binding, re-assignment and compound assignment of an immutable, `?` on a non-Result and in a non-Result function, match missing an Option / enum variant, constructor with missing / unknown / duplicate field, unknown name inside an f-string) inserted at the head of every statement list (function, method of model/class/trait/newtype, then/elif/else, while, for, match arm block); (c) binding depth × assignment depth × mutability × assignment form through six nesting constructs; (d) random matches over enum/Option/Result (variant names related by prefix / suffix / case); (e) function and method calls with 1-4 parameters of primitive / collection / model / class / trait type, positional and keyword arguments, 0-2 of them of a type the parameter does not accept, defaults on trailing parameters, arguments dropped / a surplus positional / an unknown keyword; (f) generated traits (0-2 @requires fields, 1-3 required / default methods) adopted by a class, a model or a class inheriting half of its members, each required member present / absent / of another type or signature; distinct = (file, role/block, rule, index)",
         extra_cov=getattr(ctx, "coverage_extra", None))
